@@ -265,7 +265,15 @@ def c09_5(c: Ctx) -> None:
                     c.fail(u, f'handler invocation `{q.stmt_text(ist, 50)}` reachable without {var}.set(...)', f'a handler runs without {var} naming it: its dispatches are mis-attributed', node=call, witness=c.path(g.entry, p))
             for st, var, tok in sets[:1]:
                 for sn in g.nodes_of(st):
-                    p = search([(sn, ())], is_target=lambda x, d: q.node_has_await(x) and x is not n, is_barrier=lambda x, d: x is n, edge_ok=lambda x, e, d: None if e.is_exc else d)
+                    def suspends(x) -> bool:
+                        if not q.node_has_await(x) or x is n:
+                            return False
+                        # entering / leaving `async with asyncio.timeout(..)` arms a timer, it does not yield to the event loop
+                        if x.kind in ('with', 'withexit') and isinstance(x.ast, ast.AsyncWith) and all(isinstance(it.context_expr, ast.Call) and U(it.context_expr.func) in ('asyncio.timeout', 'asyncio.timeout_at') for it in x.ast.items):
+                            return False
+                        return True
+
+                    p = search([(sn, ())], is_target=lambda x, d: suspends(x), is_barrier=lambda x, d: x is n, edge_ok=lambda x, e, d: None if e.is_exc else d)
                     # only awaits that lie on a path to the invocation matter
                     if p is not None:
                         aw = p[-1].node
@@ -285,9 +293,19 @@ def c09_8(c: Ctx) -> None:
     eh_tasks = [n for n in own_nodes(c.unit(SVC, 'EventBus._execute_handlers').node) if isinstance(n, ast.Call) and call_name(n) in ('create_task', 'ensure_future') and n.args and isinstance(n.args[0], ast.Call) and call_name(n.args[0]) == 'execute_handler']
     shared = [t for t in eh_tasks if q.kw(t, 'context') is not None]
     c.note(f'execute_handler tasks created with a shared context= object: {len(shared)} of {len(eh_tasks)}')
+    # tasks of execute_handler that each get a context of their own: `context=contextvars.copy_context()` evaluated per task (a call in the create_task expression, not a
+    # context object made once and handed to all of them), or no context= at all (create_task then copies the current context per task)
+    def private_ctx(t: ast.Call) -> bool:
+        kv = q.kw(t, 'context')
+        return kv is None or (isinstance(kv, ast.Call) and U(kv.func) in ('contextvars.copy_context', 'copy_context') and not kv.args)
+
+    all_private = bool(eh_tasks) and all(private_ctx(t) for t in eh_tasks)
     for call in inv:
         p_ = parent(call)
-        if isinstance(p_, ast.Await):
+        if isinstance(p_, ast.Await) and all_private:
+            c.ok(where(u, call), 'async handler awaited inside execute_handler, and every concurrent execute_handler task is created with a context of its own (per-task copy): handlers '
+                 'that overlap do not share context variables; on a serial bus handlers do not overlap')
+        elif isinstance(p_, ast.Await):
             c.fail(u, f'async handler awaited inline: {U(p_)[:60]}', 'the handler coroutine runs in the (shared) context of execute_handler instead of its own task: on a parallel_handlers bus overlapping handlers overwrite each other\'s handler context, children are attributed to the wrong handler', node=call)
         elif isinstance(p_, ast.Call) and call_name(p_) in ('create_task', 'ensure_future'):
             if q.kw(p_, 'context') is None:
